@@ -1,6 +1,8 @@
 package c08
 
 import (
+	"os"
+	"strconv"
 	"testing"
 
 	"verifharness/gomspec"
@@ -11,18 +13,60 @@ import (
 func TestMain(m *testing.M) { kit.MainWith(m, scratch.Cleanup) }
 
 func TestDerive(t *testing.T) {
-	gomspec.DeriveCheck(t, "derive/packages", kit.Pick(4, 100), "")
+	gomspec.DeriveCheck(t, "derive/packages", kit.Pick(2, 100), "")
 	// focused on @fp.Derive(recursive=true) over nested plain structs with exported / mixed-visibility fields
-	gomspec.DeriveCheck(t, "derive/recursive-plain", kit.Pick(2, 50), "recursive-plain")
+	gomspec.DeriveCheck(t, "derive/recursive-plain", kit.Pick(1, 50), "recursive-plain")
 	// focused on a generic struct D1[TA, TB] whose fields use the parameters in either order, used as a field
 	// type (directly, by pointer, in a slice) by a later struct that derives the same classes
-	gomspec.DeriveCheck(t, "derive/generic-nested", kit.Pick(2, 50), "generic-nested")
+	gomspec.DeriveCheck(t, "derive/generic-nested", kit.Pick(1, 50), "generic-nested")
+}
+
+// Shapes that reach further parts of the deriver; the general grammar (derive/packages) draws each of them
+// too, with a small probability.
+// every case is a whole package (gombok + go build + law test): in the quick tier some sub-checks take their
+// turn in every second shard only (a run of a single sub-check / a replay runs them in any shard)
+func turn(k int) bool {
+	if kit.Thorough() || os.Getenv("VERIF_ONLY") != "" {
+		return true
+	}
+	sh, _ := strconv.Atoi(os.Getenv("VERIF_SHARD"))
+	return (sh+k)%2 == 0
+}
+
+func TestShapes(t *testing.T) {
+	// one struct with 22-25 fields: beyond the tuple limit (HList representation, values built field by field)
+	if turn(0) {
+		gomspec.DeriveCheck(t, "derive/wide", kit.Pick(1, 10), "wide")
+	}
+	// fields of unnamed struct type, directly and below pointer / slice / Option
+	if turn(1) {
+		gomspec.DeriveCheck(t, "derive/inline-struct", kit.Pick(1, 10), "inline")
+	}
+	// @fp.GenLabelled structs deriving Show (the derive package with Labelled / Named instances) and other classes
+	if turn(2) {
+		gomspec.DeriveCheck(t, "derive/labelled", kit.Pick(1, 10), "labelled")
+	}
+	// hand-written generic types whose instances are hand-written generic functions (Box[T], Pair[K, V], Bag[T])
+	if turn(3) {
+		gomspec.DeriveCheck(t, "derive/given-func", kit.Pick(1, 10), "given-func")
+	}
+	// named non-struct types (MyInt, MyStr, Names, Index) with no / a hand-written / a derived instance
+	if turn(4) {
+		gomspec.DeriveCheck(t, "derive/named-types", kit.Pick(1, 10), "named")
+	}
+	// instances declared by a second package, imported with @fp.ImportGiven
+	if turn(5) {
+		gomspec.DeriveCheck(t, "derive/import-given", kit.Pick(1, 10), "import-given")
+	}
 }
 
 func TestPrecedence(t *testing.T) {
-	gomspec.PrecedenceCheck(t, "derive/precedence-two-packages", kit.Pick(1, 24))
+	if turn(1) {
+		gomspec.PrecedenceCheck(t, "derive/precedence-two-packages", kit.Pick(1, 24))
+	}
 }
 
 func TestKnown(t *testing.T) {
 	gomspec.KnownD16Check(t)
+	gomspec.KnownCloneNamedCheck(t)
 }
